@@ -53,6 +53,7 @@ pub struct Probes {
     pub time_dependent_tolerance_exhausted: u64,
     pub reported_starts_judged: u64,
     pub time_dependent_distance_ambiguous: u64,
+    pub commute_legs_compared: u64,
 }
 
 impl Probes {
@@ -62,7 +63,7 @@ impl Probes {
             tours, activities, multi_activity_stops, waiting_acts, tw_tight, cap_tight, dist_limit_tight,
             dur_limit_tight, size_limit_tight, reload_acts, break_acts, tours_too_ambiguous, multi_jobs_assigned, unassigned,
             skipped_time_replay, tags_checked, order_checked, groups_checked, compat_checked, skills_checked,
-            unreachable_checked, relations_checked, resources_checked, shift_latest_tight, open_tours, clustered_acts, recharge_acts, recharge_limit_tight, time_dependent_legs, time_dependent_tolerance_exhausted, reported_starts_judged, time_dependent_distance_ambiguous
+            unreachable_checked, relations_checked, resources_checked, shift_latest_tight, open_tours, clustered_acts, recharge_acts, recharge_limit_tight, time_dependent_legs, time_dependent_tolerance_exhausted, reported_starts_judged, time_dependent_distance_ambiguous, commute_legs_compared
         );
     }
     pub fn to_json(&self) -> serde_json::Value {
@@ -71,7 +72,7 @@ impl Probes {
             tours, activities, multi_activity_stops, waiting_acts, tw_tight, cap_tight, dist_limit_tight,
             dur_limit_tight, size_limit_tight, reload_acts, break_acts, tours_too_ambiguous, multi_jobs_assigned, unassigned,
             skipped_time_replay, tags_checked, order_checked, groups_checked, compat_checked, skills_checked,
-            unreachable_checked, relations_checked, resources_checked, shift_latest_tight, open_tours, clustered_acts, recharge_acts, recharge_limit_tight, time_dependent_legs, time_dependent_tolerance_exhausted, reported_starts_judged, time_dependent_distance_ambiguous
+            unreachable_checked, relations_checked, resources_checked, shift_latest_tight, open_tours, clustered_acts, recharge_acts, recharge_limit_tight, time_dependent_legs, time_dependent_tolerance_exhausted, reported_starts_judged, time_dependent_distance_ambiguous, commute_legs_compared
         )
     }
 }
@@ -661,12 +662,27 @@ fn check_tour_inner(m: &PModel, ti: usize, t: &STour, assign: &BTreeMap<usize, u
         if in_cluster {
             probes.clustered_acts += 1;
             if let Some(cmx) = m.clustering_profile.as_ref().and_then(|p| m.matrices.get(p)) {
-                for (from, to, reported) in [(a.commute_fwd.and_then(|c| c.0), Some(loc), a.commute_fwd.map(|c| c.1)), (Some(loc), a.commute_bck.and_then(|c| c.0), a.commute_bck.map(|c| c.1))] {
+                for (from, to, reported, time, what) in [(a.commute_fwd.and_then(|c| c.0), Some(loc), a.commute_fwd.map(|c| c.1), a.commute_fwd_time, "forward"), (Some(loc), a.commute_bck.and_then(|c| c.0), a.commute_bck.map(|c| c.1), a.commute_bck_time, "backward")] {
                     if let (Some(from), Some(to)) = (from, to) {
                         if from < cmx.n && to < cmx.n && from != to {
                             let flagged = cmx.flagged(from, to);
                             if flagged || reported.is_some_and(|d| d < 0.0) {
                                 out.push(Issue { prop: F, rule: "unreachable-leg", msg: format!("tour {ti}: commute {from}->{to} of '{}' is flagged unreachable (reported distance {:?})", a.job_id, reported), tag: "commute-leg" });
+                            } else if cmx.slices.is_empty() {
+                                // the reported commute against the clustering profile's matrix, direction as walked
+                                probes.commute_legs_compared += 1;
+                                let want_dist = cmx.distance(from, to, 0.0) as f64; // (a profile scale applies to durations only)
+                                let want_dur = cmx.duration(from, to, 0.0) * m.clustering_scale;
+                                if let Some(d) = reported {
+                                    if (d - want_dist).abs() > 1.0 + 1e-9 * want_dist.abs() {
+                                        out.push(Issue { prop: S, rule: "commute-distance", msg: format!("tour {ti}: {what} commute {from}->{to} of '{}' reports distance {d}, the clustering profile gives {want_dist}", a.job_id), tag: "commute-leg" });
+                                    }
+                                }
+                                if let Some((cs, ce)) = time {
+                                    if ((ce - cs) as f64 - want_dur).abs() > 1.0 + 1e-9 * want_dur.abs() {
+                                        out.push(Issue { prop: S, rule: "commute-duration", msg: format!("tour {ti}: {what} commute {from}->{to} of '{}' takes {} by its reported times, the clustering profile gives {want_dur}", a.job_id, ce - cs), tag: "commute-leg" });
+                                    }
+                                }
                             }
                         }
                     }
